@@ -30,6 +30,11 @@ CLAIMED = {
    text="Random Next/Snapshot/Rollback/Commit histories on the real TLexer are compared observer-by-observer with a fresh plain scan after every op; random expressions over all 13 combinators run on the real TLexer are compared with a pure position-passing recogniser (accept/reject, nodes, end position, following token, snapshot balance).",
    note="Generator keeps to the grammar's side conditions (Choose ends in an Ok gate, Not only under Assert, loops consume). Committed-choice semantics taken from the package documentation.",
    design="6/C13"),
+ "C07": dict(
+   technique="runtime monitoring: round-trip oracle (independent grammar printer -> real parser -> structural tree equality) over enumerated small trees and seeded random trees x layout variants",
+   text="Every tree of an enumerated operator-pair / statement-position set and seeded random trees to depth 8 are written as source text by an independent printer of the documented grammar (minimal parentheses) in a canonical and 4 random layouts; the real parser must return exactly that tree for each text.",
+   note="The printer is trusted as the statement of the README grammar; only trees the grammar can denote are generated.",
+   design="6/C07"),
  "C18": dict(
    technique="runtime monitoring: model-conformance monitor over VM-legal memory operation histories in plain and tight-allocator (every growth moves the array) modes, unique written values",
    text="VM-legal histories (calls with frame widths crossing 128/256, returns, local writes, frame-header aliases, globals, Clone with and without recycled targets on up to 9 interleaved memories, resets) run on the real memory.Type; after every op every observer of every live memory and alias is compared with a model where each activation is an independent record.",
